@@ -148,6 +148,8 @@ def run(ctx) -> None:
     shapes.other_lines_rule(ctx, Is8, "C16.I8.other-line-kinds-give-nothing")
     from ._matchrules import observer_chain_rules
     observer_chain_rules(ctx, "C16.I9.empty-pseudo-instruction-never-reaches-the-stream", "C16.I9.every-other-instruction-reaches-the-stream")
+    from ._matchrules import wired_chain_rules
+    wired_chain_rules(ctx, "C16.I9.empty-pseudo-instruction-never-reaches-the-stream", "C16.I9.every-other-instruction-reaches-the-stream")
     # I4 forwarding
     from ._parser import forwarding_rule
     forwarding_rule(ctx, "C16.I4.only-instructions-forwarded")
@@ -193,7 +195,8 @@ def run(ctx) -> None:
             continue
         cons = [e.obj for e in s.path.events if e.kind == "construct" and e.cls == "CompleteConsumer"]
         obs = cons[-1].fields.get("instruction_observers") if cons else None
-        first = obs.items[0] if isinstance(obs, ListV) and obs.items else None
+        from ..matchflow import wrapped_observer
+        first = wrapped_observer(obs.items[0]) if isinstance(obs, ListV) and obs.items else None
         ok = isinstance(first, Obj) and first.cls.name == "RemoveEmptyInstructions"
         n += 1
         if n <= 4 or not ok:
